@@ -73,7 +73,7 @@ class Prop:
     id = "C38"
     level = "exploration"
     engine = "VT"
-    quick_runs = 60000
+    quick_runs = 200000
     thorough_runs = 2000000
     rule = ("seeded marble strings (<= 24 tokens) over the documented alphabet (single- and multi-character values, numbers, groups with "
             "commas, spaces, '-', '|', '#', sometimes elements after the terminal) with seeded timespans (1, 10, 0.5, 0.1), shifts and "
